@@ -47,7 +47,69 @@ pub fn gen_doc(rng: &mut Rng, small: bool) -> (Vec<u8>, Vec<Tok>, String) {
     }
 }
 
-pub struct Chunk;
+/// `corpus: true` reads the repository's sample documents (tests/documents/**) instead
+/// of generating input; same execution and oracle
+pub struct Chunk {
+    pub corpus: bool,
+}
+
+/// sorted by path: run index -> document must not depend on directory order
+pub fn corpus_docs() -> &'static Vec<(String, Vec<u8>)> {
+    static DOCS: std::sync::OnceLock<Vec<(String, Vec<u8>)>> = std::sync::OnceLock::new();
+    DOCS.get_or_init(|| {
+        let mut v = vec![];
+        let mut dirs = vec![std::path::PathBuf::from("/repo/tests/documents")];
+        while let Some(d) = dirs.pop() {
+            if let Ok(rd) = std::fs::read_dir(&d) {
+                for e in rd.flatten() {
+                    let p = e.path();
+                    if p.is_dir() {
+                        dirs.push(p);
+                    } else if let Ok(b) = std::fs::read(&p) {
+                        v.push((p.to_string_lossy().into_owned(), b));
+                    }
+                }
+            }
+        }
+        v.sort();
+        v
+    })
+}
+
+/// corpus plan: one sample document, fixed piece sizes 1/2/3/7/64 or random cuts
+pub fn gen_corpus_plan(rng: &mut Rng, p: &mut Plan) -> bool {
+    let docs = corpus_docs();
+    if docs.is_empty() {
+        return false;
+    }
+    let (name, bytes) = &docs[(p.run as usize) % docs.len()];
+    p.doc = bytes.clone();
+    p.note = format!("corpus {}", name);
+    p.cfg = rng.below(128) as u8;
+    let (mut st, _) = gen_stream(rng, &p.doc, true);
+    let len = p.doc.len();
+    st.cuts = match rng.below(7) {
+        0 => (1..len as u32).collect(),
+        1 => (1..len).filter(|i| i % 2 == 0).map(|i| i as u32).collect(),
+        2 => (1..len).filter(|i| i % 3 == 0).map(|i| i as u32).collect(),
+        3 => (1..len).filter(|i| i % 7 == 0).map(|i| i as u32).collect(),
+        4 => (1..len).filter(|i| i % 64 == 0).map(|i| i as u32).collect(),
+        5 => (1..len).filter(|_| rng.chance(1, 16)).map(|i| i as u32).collect(),
+        _ => (1..len).filter(|_| rng.chance(1, 200)).map(|i| i as u32).collect(),
+    };
+    if st.kind.is_async() {
+        let calls = st.cuts.len().max(4);
+        st.faults = (0..rng.range(1, 8))
+            .map(|_| FaultAt { call: rng.below(calls) as u32, fault: Fault::Pending { n: rng.range(1, 3) as u8, defer: rng.below(4) as u8 } })
+            .collect();
+        st.faults.sort_by_key(|f| f.call);
+    } else {
+        st.faults.clear();
+    }
+    respect_sniff(&p.doc, &mut st);
+    p.stream = st;
+    true
+}
 
 fn all_cut_sets(len: usize) -> Vec<Vec<u32>> {
     let n = len.saturating_sub(1);
@@ -107,10 +169,20 @@ fn compare(
 
 impl Scenario for Chunk {
     fn name(&self) -> &'static str {
-        "chunk"
+        if self.corpus {
+            "corpus"
+        } else {
+            "chunk"
+        }
     }
     fn gen(&self, rng: &mut Rng, base_seed: u64, run: u64, _tier: Tier) -> Plan {
-        let mut p = Plan::new("chunk", base_seed, run);
+        let mut p = Plan::new(self.name(), base_seed, run);
+        if self.corpus {
+            p.reader = if rng.chance(1, 4) { ReaderKind::Ns } else { ReaderKind::Plain };
+            if gen_corpus_plan(rng, &mut p) {
+                return p;
+            }
+        }
         let (doc, toks, note) = gen_doc(rng, false);
         p.doc = doc;
         p.toks = toks;
